@@ -64,3 +64,33 @@ def repo_state() -> dict:
         except Exception:
             return ""
     return {"repo": REPO, "head": git("rev-parse", "HEAD"), "dirty": bool(git("status", "--porcelain", "--", "goodwe"))}
+
+
+_HARVEST = []
+
+
+def harvest_ints():
+    """Integer literals of the tree under test (goodwe/*.py, parsed with ast; negative literals included), each with its neighbours
+    v-1 / v+1 and its negation: the 'dictionary' for boundary-seeking value classes - a comparison against a constant can only change its
+    outcome at that constant.  Read from the CURRENT tree at check time, so a constant introduced by a change is tried as well."""
+    if _HARVEST:
+        return _HARVEST
+    import ast, glob
+    vals = set()
+    for f in sorted(glob.glob(os.path.join(REPO, "goodwe", "*.py"))):
+        try:
+            tree = ast.parse(open(f, encoding="utf-8").read())
+        except (SyntaxError, OSError):
+            continue
+        for node in ast.walk(tree):
+            v = None
+            if isinstance(node, ast.Constant) and isinstance(node.value, int) and not isinstance(node.value, bool):
+                v = node.value
+            elif isinstance(node, ast.Constant) and isinstance(node.value, float) and node.value == int(node.value) and abs(node.value) < 1e9:
+                v = int(node.value)
+            if v is not None and abs(v) < 2 ** 31:
+                for w in (v - 1, v, v + 1):
+                    vals.add(w)
+                    vals.add(-w)
+    _HARVEST.extend(sorted(vals))
+    return _HARVEST
